@@ -32,7 +32,7 @@ def parse_model_cases(out):
             if line == '== end': cur = None
             else:
                 cur = dict(status=None, delivered=[], csv={0: [], 1: [], 2: [], 3: []}, csvtotals=None, unspent=[], unspenttotals=None, balance=[],
-                           opret=[], stat={}, stattype=[], open=[], limit={})
+                           opret=[], stat={}, stattype=[], open=[], limit={}, fname={})
                 res[line[3:]] = cur
             continue
         if cur is None or not line: continue
@@ -49,6 +49,7 @@ def parse_model_cases(out):
         elif k == 'stattype': cur['stattype'].append(tuple(rest.split()))
         elif k == 'open': t = rest.split(' '); cur['open'].append((int(t[0]), [int(x) for x in t[1].split(',') if x] if len(t) > 1 else []))
         elif k == 'limit': t = rest.split(); cur['limit'][(t[0], int(t[1]))] = t[2:]
+        elif k == 'fname': t = rest.split(); cur['fname'][(t[0], int(t[1]))] = (t[2], t[3])
     return res
 
 def run_model(tools, cases, want, shards=16):
@@ -206,7 +207,7 @@ def cmp_csv(r, m, case):
         if finals: d.append('final-named files after a failed run: %s' % finals)
         return d
     first, last = m['status'][1], m['status'][2]
-    want_names = {'%s-%s-%s.csv' % (s, first, last): i for i, s in enumerate(CSV_STEMS)}
+    want_names = {m['fname'][('csv', i)][1]: i for i in range(4)}          # names rendered by the model (Model.final_name)
     if getattr(r, 'foreign_touched', False): d.append("another run's result file in the dump folder was modified or removed")
     if set(r.files) != set(want_names): d.append('file names impl=%s model=%s' % (sorted(r.files), sorted(want_names)))
     for name, i in want_names.items():
@@ -230,7 +231,7 @@ def cmp_rows_file(r, m, stem, header, mrows, totals_key=None):
         if finals: d.append('final-named files after a failed run: %s' % finals)
         return d
     first, last = m['status'][1], m['status'][2]
-    name = '%s-%s-%s.csv' % (stem, first, last)
+    name = m['fname'][(stem, 0)][1]                                      # name rendered by the model (Model.final_name)
     if getattr(r, 'foreign_touched', False): d.append("another run's result file in the dump folder was modified or removed")
     if list(r.files) != [name]: d.append('file names impl=%s model=%s' % (sorted(r.files), [name])); return d
     rows = r.files[name].decode(errors='replace').split('\n')
